@@ -216,6 +216,10 @@ func c13Collections() *core.Space {
 				for sib := 0; sib < 2; sib++ {
 					cases = append(cases, cs{si, ci, pol, sib})
 				}
+				// sibling 3: the setting is written as a reference to the value (f: "${src}")
+				if sh.Cfgs[ci] != nil {
+					cases = append(cases, cs{si, ci, pol, 3})
+				}
 			}
 		}
 	}
@@ -243,7 +247,7 @@ func c13Collections() *core.Space {
 			if c.sibling == 2 {
 				return fmt.Sprintf("F %s `%s` pre-filled %s, config (at the level of the struct): %v", sh.Name, inlTag[c.pol], c13Show(reflect.ValueOf(sh.Pre())), sh.Cfgs[c.cfg])
 			}
-			return fmt.Sprintf("F %s `%s` pre-filled %s, config f: %v%s", sh.Name, polTag[c.pol], c13Show(reflect.ValueOf(sh.Pre())), sh.Cfgs[c.cfg], []string{"", " (and a setting for the sibling field)"}[c.sibling])
+			return fmt.Sprintf("F %s `%s` pre-filled %s, config f: %v%s", sh.Name, polTag[c.pol], c13Show(reflect.ValueOf(sh.Pre())), sh.Cfgs[c.cfg], []string{"", " (and a setting for the sibling field)", "", " (written as f: ${src} with src holding the value, VarExp)"}[c.sibling])
 		},
 		Exec: func(i int) core.Result {
 			c := cases[i]
@@ -287,12 +291,18 @@ func c13Collections() *core.Space {
 					in["sib"] = 4
 					wantSib = 4
 				}
-				cfg, err := ucfg.NewFrom(in)
+				var copts []ucfg.Option
+				if c.sibling == 3 {
+					in = M{"f": "${src}", "src": sh.Cfgs[c.cfg]}
+					copts = []ucfg.Option{ucfg.VarExp}
+					sig += " via reference"
+				}
+				cfg, err := ucfg.NewFrom(in, copts...)
 				if err != nil {
 					res = core.Fail("collections", "BUILD", err.Error())
 					return
 				}
-				if err := cfg.Unpack(target.Interface()); err != nil {
+				if err := cfg.Unpack(target.Interface(), copts...); err != nil {
 					res = core.Fail("collections", "UNPACK-FAILED "+sig, firstLine(err.Error()))
 					return
 				}
